@@ -134,7 +134,7 @@ fn enum_fold(len: usize, pre: &mut Vec<u8>, f: &mut dyn FnMut(&[u8]) -> Vec<u64>
 
 pub fn handle(op: &str, a: &[&str]) -> Option<String> {
     let with_oracle = |s: String, o: Option<String>| match o {
-        Some(w) => format!("{s} #oracle:{}", w.replace(' ', "_")),
+        Some(w) => format!("{s} #oracle:{w}"),
         None => s,
     };
     match (op, a) {
